@@ -70,7 +70,9 @@ def worker(ck: Check, job):
         return len(r) == 1 and r[0].ret is True
 
     def ignorable_word(w):
-        return linking(w) or not any(strings._alpha(ord(c)) for c in w)
+        # linking words: the language's INSIGNIFICANT vocabulary and its conjunction ("and" is a linking word in every
+        # language; Dutch merely lists it with the number words instead of the INSIGNIFICANT set)
+        return linking(w) or strings.rust_lowercase(w) == L.conj or not any(strings._alpha(ord(c)) for c in w)
 
     def ignorable_sep(sp):
         return _trim(sp) != '.'
@@ -136,12 +138,24 @@ def worker(ck: Check, job):
         a = [native_occ(o) for o in ra['ok']['batch']]
         b = [native_occ(o) for o in rb['ok']['batch']]
         problems = policy_problems(a, b, toks, thr, ignorable_word, ignorable_sep)
-        return {'key': {'lang': code, 'kind': problems[0][0] if problems else ''}, 'reproduced': bool(problems), 'replay': rep,
+        kind = problems[0][0] if problems else ''
+        inner = [t[0] for t in toks[2:-2:2]]
+        if kind == 'policy' and any(strings.rust_lowercase(w_) == L.decimal_sep for w_ in inner):
+            # role of a listed finding: the decimal separator word stands between two numbers without starting a fraction
+            kind = 'separator-word-between-numbers'
+        return {'key': {'kind': kind} if kind == 'separator-word-between-numbers' else {'lang': code, 'kind': kind},
+                'reproduced': bool(problems), 'replay': rep,
                 'what': '%s thr=%r tokens %r: at 0 %r, at t %r: %s' % (code, thr, [t[0] for t in toks],
                                                                         [(o['start'], o['end'], o['text']) for o in a],
                                                                         [(o['start'], o['end'], o['text']) for o in b],
                                                                         '; '.join(p[1] for p in problems[:2]))}
-    ck.prove_none(name, st.assm, guard(cov, bad), on_cex, lambda m, c: None)
+    def block(m, cex):
+        if cex['key'].get('kind') == 'separator-word-between-numbers':
+            idx = [j for j, r in enumerate(reps) if strings.rust_lowercase(r) == L.decimal_sep]
+            inner_pos = range(1, k - 1)
+            return z3.Not(z3.Or(*[st.w[i] == j for i in inner_pos for j in idx])) if idx and k > 2 else None
+        return None
+    ck.prove_none(name, st.assm, guard(cov, bad), on_cex, block)
     ck.cover(name + ':held-and-dropped', st.assm + [z3.UGT(n0, nt)], lambda m: {'lang': code, 'tokens': [t[0] for t in st.concrete(m)]})
     ck.cover(name + ':kept', st.assm + [z3.UGE(nt, 2)], lambda m: {'lang': code, 'tokens': [t[0] for t in st.concrete(m)]})
     ck.bounds['stream_words'] = k
